@@ -7,7 +7,7 @@ export VERIF_DIR="$PWD" CARGO_TARGET_DIR="$PWD/target" CARGO_NET_OFFLINE=true
 SECS=${1:-600}; shift
 TARGETS=${*:-"src_stages json_pl json_rq fmt_rt staged err_span lex_tile tape_c16 tape_c10 tape_c01"}
 (cd harness && cargo build --release --offline 2>&1 | tail -1)
-(cd fuzz && cargo +nightly fuzz build -s none --fuzz-dir "$PWD" 2>&1 | tail -1)
+./bin/setup-fuzz 2>&1 | tail -1
 ulimit -s unlimited
 for t in $TARGETS; do
   echo "=== $t"
